@@ -2,9 +2,14 @@ use crate::engine::Prop;
 
 pub mod c01;
 pub mod c04;
+pub mod c08;
+pub mod c13;
+pub mod c14;
+pub mod c15;
+pub mod wf;
 
 pub fn all() -> Vec<&'static dyn Prop> {
-    vec![&c01::C01, &c04::C04]
+    vec![&c01::C01, &c04::C04, &c08::C08, &c13::C13, &c14::C14, &c15::C15]
 }
 
 pub fn by_id(id: &str) -> Option<&'static dyn Prop> {
